@@ -3,17 +3,58 @@
 Each tag has `process(cmd) -> bytes | None`, `activate()` (a new anticollision/selection), a command log
 with the *read unit* every command fetches, and `silent_from`: the tag stops answering for good from its
 k-th command on (None = never).  Images are arbitrary bytes; the tags do not interpret them.
+
+Answer variants (`mut`): every answer of the conversation can be replaced by a well-framed variant.  `mut` maps
+a command ordinal (int, 1-based) or a command class name as logged ("POLL", "READ", "RALL", "SELECT-fid" ...)
+to a list of variants consumed one per occurrence (None = the genuine answer):
+  "none"            no answer                     ("trunc", n)   payload without its last n bytes
+  ("extend", b)     payload followed by bytes b   ("raw", b)     payload replaced by b
+  ("idm", b)        Type 3: another IDm           ("sw", b)      Type 4: another status word
+The frame around the payload (Type 3 length byte, Type 4 block header) stays consistent.
 """
 
 
 class Base(object):
     kind = "?"
 
-    def __init__(self, silent_from=None):
+    def __init__(self, silent_from=None, mut=None):
         self.silent_from = silent_from
         self.ncmd = 0
         self.dead = False
         self.log = []          # (name, unit or None, answered?)
+        self.mut = {k: list(v) for k, v in (mut or {}).items()}
+        self.applied = None
+
+    def variant(self, name):
+        """the variant for the answer being built (by ordinal first, then by command class), or None"""
+        for key in (self.ncmd, name):
+            lst = self.mut.get(key)
+            if lst:
+                v = lst.pop(0)
+                if v is not None:
+                    return v
+        return None
+
+    def vary(self, name, payload, idm_at=None, sw=False):
+        """apply the variant to the payload (bytes) -> bytes or None (no answer)"""
+        v = self.variant(name)
+        if v is None or payload is None:
+            return payload
+        self.applied = v if isinstance(v, str) else v[0]
+        if v == "none":
+            return None
+        kind, arg = v[0], v[1]
+        if kind == "trunc":
+            return payload[:max(0, len(payload) - arg)]
+        if kind == "extend":
+            return payload + bytes(arg)
+        if kind == "raw":
+            return bytes(arg)
+        if kind == "idm" and idm_at is not None:
+            return payload[:idm_at] + bytes(arg)[:8] + payload[idm_at + 8:]
+        if kind == "sw" and sw and len(payload) >= 2:
+            return payload[:-2] + bytes(arg)
+        return payload
 
     def activate(self):
         return not self.dead
@@ -26,7 +67,10 @@ class Base(object):
         if self.dead:
             self.log.append(("dead", None, False))
             return None
+        self.applied = None
         name, unit, rsp = self.handle(cmd)
+        if self.applied:
+            name = "%s~%s" % (name, self.applied)
         self.log.append((name, unit, rsp is not None))
         return rsp
 
@@ -37,8 +81,8 @@ class Type1(Base):
     size = physical memory in bytes (120, or a multiple of 128 up to 2048)."""
     kind = "T1"
 
-    def __init__(self, hr, mem, silent_from=None, rseg=None):
-        Base.__init__(self, silent_from)
+    def __init__(self, hr, mem, silent_from=None, rseg=None, mut=None):
+        Base.__init__(self, silent_from, mut)
         self.hr = bytes(hr)
         self.mem = bytearray(mem)
         self.uid = bytes(self.mem[0:4])
@@ -48,6 +92,10 @@ class Type1(Base):
         return self.hr + self.uid
 
     def handle(self, cmd):
+        name, unit, rsp = self.handle1(cmd)
+        return name, unit, self.vary(name, rsp)
+
+    def handle1(self, cmd):
         c = cmd[0]
         if c == 0x78 and len(cmd) == 7:
             return "RID", None, self.hr + self.uid
@@ -56,7 +104,7 @@ class Type1(Base):
         if c == 0x00 and len(cmd) == 7:
             if cmd[3:7] != self.uid:
                 return "RALL-uid", None, None
-            return "RALL", "rall", self.hr + bytes(self.mem[0:120])
+            return "RALL", ("rall",), self.hr + bytes(self.mem[0:120])
         if c == 0x01 and len(cmd) == 7:
             a = cmd[1]
             if cmd[3:7] != self.uid or a >= 128 or a >= len(self.mem):
@@ -82,8 +130,8 @@ class Type2(Base):
     unknown command the tag is mute until the next activation."""
     kind = "T2"
 
-    def __init__(self, mem, silent_from=None, version=None, nak="timeout", uid=None, ulc=False):
-        Base.__init__(self, silent_from)
+    def __init__(self, mem, silent_from=None, version=None, nak="timeout", uid=None, ulc=False, mut=None):
+        Base.__init__(self, silent_from, mut)
         self.mem = bytearray(mem)
         self.version = version          # bytes, "nak" or None (no answer)
         self.nak = nak                  # "timeout" | "byte"
@@ -106,6 +154,10 @@ class Type2(Base):
         return name, unit, (None if self.nak == "timeout" else b"\x00")
 
     def handle(self, cmd):
+        name, unit, rsp = self.handle2(cmd)
+        return name, unit, self.vary(name, rsp)
+
+    def handle2(self, cmd):
         if self.mute:
             return "mute", None, None
         if self.sel2:
@@ -158,12 +210,13 @@ class Type3(Base):
     kind = "T3"
 
     def __init__(self, blocks, idm=bytes.fromhex("02fe000102030405"), pmm=bytes.fromhex("0001ffffffffffff"),
-                 sys=b"\x12\xfc", silent_from=None, nbr_max=4, poll_sys=True):
-        Base.__init__(self, silent_from)
+                 sys=b"\x12\xfc", silent_from=None, nbr_max=4, poll_sys=True, systems=None, mut=None):
+        Base.__init__(self, silent_from, mut)
         self.blocks = [bytes(b) for b in blocks]
         self.idm, self.pmm, self.sys = bytes(idm), bytes(pmm), bytes(sys)
         self.nbr_max = nbr_max
         self.poll_sys = poll_sys
+        self.systems = [bytes(x) for x in (systems or [self.sys])]     # systems the card answers a poll for
 
     def sensf_res(self, with_sys):
         return b"\x01" + self.idm + self.pmm + (self.sys if with_sys else b"")
@@ -174,16 +227,19 @@ class Type3(Base):
         code = cmd[1]
         if code == 0x00 and len(cmd) == 6:
             sc = cmd[2:4]
-            if not all(a == 0xFF or a == b for a, b in zip(sc, self.sys)):
+            hit = [x for x in self.systems if all(a == 0xFF or a == b for a, b in zip(sc, x))]
+            if not hit:
                 return "POLL-other", None, None
-            r = b"\x01" + self.idm + self.pmm + (self.sys if cmd[4] == 1 else b"")
-            return "POLL", None, bytes([len(r) + 1]) + r
+            r = b"\x01" + self.idm + self.pmm + (hit[0] if cmd[4] == 1 else b"")
+            r = self.vary("POLL", r, idm_at=1)
+            return "POLL", None, (None if r is None else bytes([(len(r) + 1) & 0xFF]) + r)
         if cmd[2:10] != self.idm:
             return "idm", None, None
 
         def frame(body):
             r = bytes([code + 1]) + self.idm + body
-            return bytes([len(r) + 1]) + r
+            r = self.vary("READ", r, idm_at=1)
+            return None if r is None else bytes([(len(r) + 1) & 0xFF]) + r
         if code == 0x06:
             body = cmd[10:]
             try:
@@ -219,8 +275,8 @@ class Type4(Base):
     kind = "T4"
 
     def __init__(self, files, ats=bytes.fromhex("067577810280"), silent_from=None, aids=("v2", "v1"),
-                 short_read=None, short_from=0, short_file=None, fsd=256, attrib_res=b"\x00", type_b=False):
-        Base.__init__(self, silent_from)
+                 short_read=None, short_from=0, short_file=None, fsd=256, attrib_res=b"\x00", type_b=False, mut=None):
+        Base.__init__(self, silent_from, mut)
         self.files = {bytes(k): bytes(v) for k, v in files.items()}
         self.ats = bytes(ats)
         self.aids = aids
@@ -244,6 +300,9 @@ class Type4(Base):
             if pcb & 0x10:
                 return "I-chain", None, bytes([0xA2 | (pcb & 1)])
             name, unit, r = self.apdu(cmd[1:])
+            r = self.vary(name, r, sw=True)
+            if r is None:
+                return name, unit, None
             return name, unit, self._send(pcb & 1, r)
         if pcb & 0xF6 == 0xA2 and self.pending:      # R(ACK) while we chain
             return "R-ack", None, self._send(pcb & 1, None)
@@ -279,7 +338,7 @@ class Type4(Base):
             if p1 == 0x00 and self.app and data in self.files:
                 self.sel = data
                 return "SELECT-fid", ("sel", data.hex()), b"\x90\x00"
-            return "SELECT-nf", None, b"\x6a\x82"
+            return "SELECT-nf", ("sel", bytes(data).hex()), b"\x6a\x82"        # (a variant may still say 9000)
         if ins == 0xB0:
             if self.sel is None:
                 return "READ-nosel", None, b"\x69\x86"
